@@ -396,8 +396,8 @@ var tagKeyAlphabet = []byte("0123456789ABCDEFabcxyzGZ")
 
 // incoherentComp: any prefix, any tag encoder / length / pad, unknown-tag skipping with any
 // prefixer, bitmaps of any block length with any encoder and (composite bitmaps never
-// auto-expand) any prefixer. zeroProgress=false keeps Tag.Length 0 specs free of a
-// subfield keyed "" (the hang of finding KF5 is probed separately, last).
+// auto-expand) any prefixer; with Tag.Length 0 a subfield keyed "" now and then (the input
+// class of the repaired finding KF5: an element that consumes nothing must be an error).
 func incoherentComp(r *gen.Rng, depth int) *impl.Tree {
 	n := r.Intn(5)
 	sub := func() *impl.Tree {
@@ -439,6 +439,9 @@ func incoherentComp(r *gen.Rng, depth int) *impl.Tree {
 			default:
 				key = string(r.From(tagKeyAlphabet, 1+r.Intn(4)))
 			}
+			if tlen == 0 && r.Intn(3) == 0 {
+				key = ""
+			}
 			if seen[key] {
 				continue
 			}
@@ -472,9 +475,9 @@ func incoherentField(r *gen.Rng, depth int) *impl.Tree {
 	return incoherentPrim(r)
 }
 
-// incoherentMsg: any MTI spec, any bitmap block length / encoder / Fixed family (a non-Fixed
-// prefixer on an auto-expanding message bitmap is the class of finding KF6: generated
-// rarely, so that it stays observed), elements at continuation positions, any ids.
+// incoherentMsg: any MTI spec, any bitmap block length / encoder / prefixer (non-Fixed ones
+// can announce a zero block length: the input class of the repaired finding KF6), elements
+// at continuation positions, any ids.
 func incoherentMsg(r *gen.Rng, depth int) *impl.Tree {
 	mti := incoherentPrim(r)
 	if r.Bool() {
@@ -482,7 +485,7 @@ func incoherentMsg(r *gen.Rng, depth int) *impl.Tree {
 	}
 	bl := gen.Pick(r, []int{0, 8, 8, 1, 2, 3, 16, 17, 5})
 	bpref := gen.Pick(r, gen.PrefFams) + ".F"
-	if r.Intn(20) == 0 {
+	if r.Intn(4) == 0 {
 		bpref = anyPref(r)
 	}
 	benc := gen.Pick(r, allEncs)
@@ -958,8 +961,8 @@ func runC04Child(t gen.Tier, r *gen.Rng, rep *Reporter) {
 		}
 	}
 
-	// S6c: bitmap specs whose prefixer can yield a zero block length (finding KF6): the
-	// random incoherent stream meets them only now and then
+	// S6c: bitmap specs whose prefixer can yield a zero block length (the input class of the
+	// repaired finding KF6): regression probe
 	for _, pz := range []struct{ pref, tail string }{{"none", ""}, {"ber", "00"}, {"ascii.1", "30"}, {"binary.2", "0000"}, {"bcd.2", "00"}} {
 		for _, auto := range []string{"1", "0"} {
 			spec, ok := impl.ParseTree(fmt.Sprintf("m(p(s,4,ascii,ascii.F,nil,d),bm(8,binary,%s,%s),f(2,p(s,2,ascii,ascii.F,nil,d)))", pz.pref, auto))
@@ -972,7 +975,8 @@ func runC04Child(t gen.Tier, r *gen.Rng, rep *Reporter) {
 		}
 	}
 
-	// S7 (last: a hanging call leaves its goroutine running): the zero-progress TLV loop —
+	// S7 (last: should it hang again, the call leaves its goroutine running): the former
+	// zero-progress TLV loop (repaired finding KF5) —
 	// Tag.Length 0 with a non-BER tag decoder and a zero-width subfield keyed "".
 	for _, tenc := range []string{"ascii", "bcd"} {
 		spec := impl.N("c", impl.A("3"), impl.A("ascii.F"),
